@@ -125,7 +125,7 @@ type Ledger struct {
 	// body bytes the subject's application read out of a stream that was already closed on the wire
 	// (only used to name the cause of an over-return)
 	ReadAfterClose int64
-	SettingsAcks int
+	SettingsAcks   int
 
 	viol []Violation
 }
